@@ -1467,7 +1467,7 @@ fn main() {
     let quick_blocks = vec![
         Block { n: 2, sizes: FULL_SIZES, by_target: Some(&[2, 3, 4]), edge_opts: &[], rev: true },
         Block { n: 3, sizes: FULL_SIZES, by_target: Some(&[2, 3, 4]), edge_opts: &[], rev: true },
-        Block { n: 4, sizes: &[2, 10, 32_768, 65_530, 70_000], by_target: Some(&[2, 4]), edge_opts: &[], rev: true },
+        Block { n: 4, sizes: &[2, 32_768, 65_530, 70_000], by_target: Some(&[2, 4]), edge_opts: &[], rev: true },
     ];
     let thorough_blocks = vec![
         Block { n: 2, sizes: FULL_SIZES, by_target: Some(&[2, 3, 4]), edge_opts: &[], rev: true },
